@@ -30,10 +30,10 @@ ASSUMPTIONS = [
     'budgets are polynomials with slack: depth<=24(|R|+2), steps<=5000+300(|R|+range cells)^2, message<=16(L+2)^3+4*text+512',
     'IF(TRUE,x,y): a cycle or failure reachable only through the unselected branch may or may not be reported (both accepted)',
 ]
-PROBE_CELLS = {'Sheet1!Y1': 5, 'Sheet1!Y2': '=Y1+1'}
+PROBE_CELLS = {'Sheet1!ZZ1': 5, 'Sheet1!ZZ2': '=ZZ1+1'}
 SAFETY_STEPS = 3_000_000
 
-CONSTRUCTS = ('ref', 'rep', 'range', 'name', 'if')
+CONSTRUCTS = ('ref', 'rep', 'range', 'name', 'if', 'guard')
 
 
 # --------------------------------------------------------------------------
@@ -89,6 +89,9 @@ def _mk_term(rng, kind, i, j, ctx, allowed_dead=None):
     A = ctx['addrs']
     if kind == 'rep':
         return {'t': 'rep', 'to': A[j]}
+    if kind == 'guard':
+        # IF(ISERROR(x), 0, x): same dependency, same value when x is fine
+        return {'t': 'guard', 'to': A[j]}
     if kind == 'name':
         name = f'nm_{j}'
         ctx['names'][name] = A[j]
@@ -126,7 +129,10 @@ def gen_case(seed, tier='quick'):
     else:
         n = rng.randint(1 if cls == 'selfloop' else 2, 16)
     W = 1 if (plain or cls == 'fail' and n > 12) else rng.choice(
-        [1, 1, 2, 3, 4])
+        [1, 1, 2, 3, 4, 27, 30])
+    if W > 4 and cls not in ('chain_ok', 'longcycle', 'fail'):
+        # a wide sheet: columns run past Z (AA, AB ...)
+        n = max(n, rng.randint(27, 34))
     two = (not plain) and n >= 4 and rng.random() < 0.3
     split = rng.randint(2, n - 1) if two else n
     sheets = list(rng.choice(SHEET_PAIRS))
@@ -134,10 +140,10 @@ def gen_case(seed, tier='quick'):
     ctx = {'addrs': addrs, 'names': {}, 'n': n, 'W': W, 'split': split,
            'sheets': sheets}
     deps = {i: [] for i in range(n)}     # i -> [(j, kind)]
-    weights = [50, 12, 16, 12, 10] if not plain else [80, 0, 10, 10, 0]
+    weights = [46, 12, 16, 12, 8, 6] if not plain else [80, 0, 10, 10, 0, 0]
     if cls == 'longcycle':
         # only single-target constructs: the shortest cycle really is Lc
-        weights = [78, 10, 0, 12, 0]
+        weights = [78, 10, 0, 12, 0, 0]
 
     def kind():
         return rng.choices(CONSTRUCTS, weights)[0]
@@ -219,7 +225,7 @@ def gen_case(seed, tier='quick'):
     if cls == 'switch_cycle':
         # IF(V1>0, <edge that closes a cycle>, <harmless>) - the cycle exists
         # only while the input V1 is positive
-        sw = f'{sheets[0]}!V1'
+        sw = f'{sheets[0]}!ZY1'
         switches[sw] = 0
         i = rng.randrange(n)
         j = rng.randrange(i, n)          # upward or to itself
@@ -283,7 +289,7 @@ def gen_case(seed, tier='quick'):
         first['fault'] = {'kind': 'interrupt',
                           'frac': round(rng.uniform(0.02, 1.15), 3)}
     ops.append(first)
-    tail = [{'op': 'eval', 'target': f'{sheets[0]}!Y2'},
+    tail = [{'op': 'eval', 'target': f'{sheets[0]}!ZZ2'},
             {'op': 'eval', 'target': e}]
     if rng.random() < 0.5:
         tail.append({'op': 'eval', 'target': addrs[rng.randrange(n)],
@@ -303,7 +309,7 @@ def gen_case(seed, tier='quick'):
         ops.extend(maybe_aborted() +
                    [{'op': 'set', 'target': sw, 'value': 1},
                     {'op': 'eval', 'target': e},
-                    {'op': 'eval', 'target': f'{sheets[0]}!Y2'}] +
+                    {'op': 'eval', 'target': f'{sheets[0]}!ZZ2'}] +
                    maybe_aborted() +
                    [{'op': 'set', 'target': sw, 'value': 0},
                     {'op': 'eval', 'target': e}])
@@ -324,7 +330,7 @@ def _ref(frm_sheet, to_addr, qualify, default='Sheet1'):
 
 def probe_cells(world):
     s0 = world.get('sheets', ['Sheet1'])[0]
-    return {f'{s0}!Y1': 5, f'{s0}!Y2': '=Y1+1'}
+    return {f'{s0}!ZZ1': 5, f'{s0}!ZZ2': '=ZZ1+1'}
 
 
 def render(world):
@@ -345,6 +351,9 @@ def render(world):
             elif k == 'rep':
                 r = _ref(sheet, t['to'], q, s0)
                 parts.append(f'({r}+{r})')
+            elif k == 'guard':
+                r = _ref(sheet, t['to'], q, s0)
+                parts.append(f'IF(ISERROR({r}),0,{r})')
             elif k == 'name':
                 parts.append(t['name'])
             elif k == 'range':
@@ -387,7 +396,7 @@ class Graph:
             lv, al = [], []
             for t in nd['terms']:
                 k = t['t']
-                if k in ('ref', 'rep', 'name'):
+                if k in ('ref', 'rep', 'name', 'guard'):
                     lv.append(t['to'])
                 elif k == 'range':
                     lv.extend(t['members'])
@@ -459,7 +468,7 @@ class Graph:
             v = nd['k']
             for t in nd['terms']:
                 k = t['t']
-                if k in ('ref', 'name'):
+                if k in ('ref', 'name', 'guard'):
                     v += self._val[t['to']]
                 elif k == 'rep':
                     v += 2 * self._val[t['to']]
